@@ -87,7 +87,31 @@ pub fn gen(rng: &mut Rng, kind: &str, size: &str, profile: &str) -> Scenario {
             return gen_stale_n(rng, kind, n);
         }
         "frontchurn" => return gen_frontchurn(rng, kind, size),
+        "forget" => {
+            // children let go of the waker they kept, without invoking it; nobody can announce their completion any more,
+            // so the run ends with a quiet phase or a drop instead of a drain
+            let mut sc = gen(rng, kind, size, "mix");
+            let ids: Vec<u32> = sc.scripts.keys().copied().filter(|c| *c < 100_000).collect();
+            if !ids.is_empty() {
+                let k = 1 + rng.below(3);
+                for _ in 0..k {
+                    let c = ids[rng.below(ids.len() as u64) as usize];
+                    let pos = rng.below(sc.ops.len() as u64 + 1) as usize;
+                    sc.ops.insert(pos, Op::Forget { c });
+                    if rng.pct(60) {
+                        sc.ops.insert((pos + 1).min(sc.ops.len()), Op::Poll { w: 1 });
+                    }
+                }
+            }
+            // no extra clones around: the forgotten waker may be the last outstanding one of its block
+            sc.ops.retain(|o| !matches!(o, Op::Wclone { .. }));
+            sc.tail = if rng.pct(75) { "quietonly" } else { "drop" }.into();
+            sc.final_wake = false;
+            return sc;
+        }
         "burst" => return gen_burst(rng, kind),
+        "creep" => return gen_creep(rng, kind, size),
+        "hugepeak" => return gen_hugepeak(rng, kind),
         "zerocap" => {
             // an adapter with limit 0 never pulls anything (C09 starts at n = 1); it must at least stay silent (C14)
             let mut sc = gen_adapter(rng, kind, size);
@@ -145,7 +169,7 @@ pub fn gen(rng: &mut Rng, kind: &str, size: &str, profile: &str) -> Scenario {
                     let st = sc.scripts.get_mut(&c).unwrap();
                     let pos = rng.below(st.len() as u64 + 1) as usize;
                     st.insert(pos, Step { acts: vec![], resp: "!".into() });
-                } else if !sc.ctor.starts_with("plain") {
+                } else if !sc.ctor.starts_with("plain") && sc.ctor != "zst" {
                     sc.drop_panic.push(c);
                 }
             }
@@ -332,8 +356,8 @@ fn gen_join(rng: &mut Rng, kind: &str, size: &str) -> Scenario {
         // children without drop glue (the join cannot be observed dropping them; see children.rs)
         sc.ctor = "plain".into();
     } else if n % 4 == 1 {
-        // outputs without drop glue
-        sc.ctor = "plainout".into();
+        // outputs without drop glue; for join_all also zero-sized ones
+        sc.ctor = if kind == "ja" && n % 8 == 5 { "zst" } else { "plainout" }.into();
     }
     for c in 1..=n {
         sc.init.push(c);
@@ -491,9 +515,11 @@ fn gen_frontchurn(rng: &mut Rng, kind: &str, size: &str) -> Scenario {
 fn gen_burst(rng: &mut Rng, kind: &str) -> Scenario {
     let mut sc = Scenario { kind: kind.into(), ctor: "from_iter".into(), ..Default::default() };
     let stream = is_stream_kind(kind);
-    let batch: u32 = rng.pick(&[31u32, 32, 33, 60, 61, 62, 63, 122, 123]);
+    let batch: u32 = if stream && rng.pct(35) { rng.pick(&[183u32, 184, 200, 250]) } else { rng.pick(&[31u32, 32, 33, 60, 61, 62, 63, 122, 123]) };
     let early: u32 = if rng.pct(50) { 0 } else { 1 + rng.below(12) as u32 };
-    let late: u32 = if rng.pct(60) { 0 } else { 1 + rng.below(3) as u32 };
+    // (big batches only without stragglers, and no drain after a re-use: a drain fires the kept wakers of everything that
+    //  has finished, which is the history of the known finding about stale wakers and the poll budget)
+    let late: u32 = if batch > 150 || rng.pct(60) { 0 } else { 1 + rng.below(3) as u32 };
     let n = early + batch + late;
     sc.cap = n as usize;
     let done = if stream { "E" } else { "R" };
@@ -512,7 +538,10 @@ fn gen_burst(rng: &mut Rng, kind: &str) -> Scenario {
             sc.stream_left.insert(c, 0);
         }
     }
-    sc.ops.push(Op::Poll { w: 1 });
+    // (61 children are polled per call: everybody gets its first poll before the batch is completed)
+    for _ in 0..n / 61 + 2 {
+        sc.ops.push(Op::Poll { w: 1 });
+    }
     for c in early + 1..=early + batch {
         sc.ops.push(Op::Complete { c });
     }
@@ -520,12 +549,80 @@ fn gen_burst(rng: &mut Rng, kind: &str) -> Scenario {
     if rng.pct(50) {
         sc.ops.push(Op::Poll { w: 1 });
     }
+    if stream && late == 0 && rng.pct(60) {
+        // the drained merge is used again: one more source, which stays pending
+        sc.scripts.insert(n + 1, vec![]);
+        sc.stream_left.insert(n + 1, 1);
+        sc.ops.push(Op::Push { c: n + 1, front: false, r#try: false });
+        sc.ops.push(Op::Poll { w: 1 });
+        sc.tail = "quietonly".into();
+        return sc;
+    }
     sc.tail = match rng.below(3) {
         0 => "drop",
         1 => "drain",
         _ => "quiet",
     }
     .into();
+    sc
+}
+
+/// growable kinds: the peak creeps up by one per round (round r holds r children; all but the oldest finish at once and -
+/// in the ordered kinds - wait behind it in the backlog, then the oldest is completed and the collection drained):
+/// anything that is re-sized to exactly what is needed allocates once per round instead of once per doubling
+fn gen_creep(rng: &mut Rng, kind: &str, size: &str) -> Scenario {
+    let real = size == "real";
+    let stream = is_stream_kind(kind);
+    let mut sc = Scenario { kind: kind.into(), ..Default::default() };
+    sc.ctor = if rng.pct(50) { "new" } else { "with_capacity" }.into();
+    sc.cap = 1 + rng.below(4) as usize;
+    let rounds: u32 = if real { 50 + rng.below(40) as u32 } else { 3 + rng.below(6) as u32 };
+    let done = if stream { "E" } else { "R" };
+    let mut next = 1u32;
+    for r in 2..=rounds {
+        let head = next;
+        for i in 0..r {
+            sc.scripts.insert(next, if i == 0 { vec![] } else { vec![Step { acts: vec![], resp: done.into() }] });
+            if stream {
+                sc.stream_left.insert(next, 0);
+            }
+            sc.ops.push(Op::Push { c: next, front: false, r#try: false });
+            next += 1;
+        }
+        sc.ops.push(Op::Poll { w: 1 });
+        sc.ops.push(Op::Complete { c: head });
+        for _ in 0..r + 1 {
+            sc.ops.push(Op::Poll { w: 1 });
+        }
+    }
+    sc.tail = "drain".into();
+    sc
+}
+
+/// a population far above the other profiles (2100 - 2300 children at once, past any plausible internal size limit),
+/// filled and drained to the end a dozen times
+fn gen_hugepeak(rng: &mut Rng, kind: &str) -> Scenario {
+    let stream = is_stream_kind(kind);
+    let mut sc = Scenario { kind: kind.into(), ctor: "new".into(), ..Default::default() };
+    let peak = 2100 + rng.below(200) as u32;
+    let rounds = 16 + rng.below(4);
+    let done = if stream { "E" } else { "R" };
+    let mut next = 1u32;
+    for _ in 0..rounds {
+        for _ in 0..peak {
+            sc.scripts.insert(next, vec![Step { acts: vec![], resp: done.into() }]);
+            if stream {
+                sc.stream_left.insert(next, 0);
+            }
+            sc.ops.push(Op::Push { c: next, front: false, r#try: false });
+            next += 1;
+        }
+        let polls = if stream { 2 } else { peak + 1 };
+        for _ in 0..polls {
+            sc.ops.push(Op::Poll { w: 1 });
+        }
+    }
+    sc.tail = "drain".into();
     sc
 }
 
